@@ -39,6 +39,7 @@ def handle : Handler
   | "alias_cdiv_q", args => run3 cdiv_q args
   | "alias_cdiv_r", args => run3 cdiv_r args
   | "alias_mod", args => run3 AliasMem.mod args
+  | "alias_divexact", args => run3 divexact args
   | _, _ => none
 
 end Mpir.Ops.Alias
